@@ -183,6 +183,14 @@ def proof_status(pid, regenerate=None):
         st["discharged"] = good
     if forb:
         st["broken"].append("forbidden tokens in the Lean library: " + "; ".join(forb[:5]))
+    if ok and os.environ.get("VERIF_TIER") == "thorough":
+        # independent replay of the compiled modules by leanchecker
+        with _Lock():
+            lc = subprocess.run(["lake", "env", "leanchecker"] + prop_modules(pid), cwd=LEAN, stdout=subprocess.PIPE,
+                                stderr=subprocess.STDOUT, timeout=3000)
+        st["leanchecker"] = "ok" if lc.returncode == 0 else "FAILED: " + lc.stdout.decode(errors="replace")[-500:]
+        if lc.returncode != 0:
+            st["broken"].append("leanchecker rejects the compiled theorems of %s" % pid)
     st["wall_s"] = round(time.time() - t0, 2)
     return st
 
@@ -344,6 +352,7 @@ def write_evidence(run, nviol, broken):
         "branch_hits": dict(sorted(run.branches.items())),
         "model_impl_divergences": len(run.divergences),
         "no_longer_checks": broken,
+        "leanchecker": pr.get("leanchecker", "not run (thorough tier only)"),
         "notes": run.notes,
     }
     cov.update(run.extra)
